@@ -153,6 +153,21 @@ func c14GenCLI(r *world.PRNG, seed uint64, i int) *Case {
 		}
 		c.Extra["ill"] = "1"
 	}
+	if r.Chance(1, 3) {
+		// a file whose rewritten form does not parse: it fails after formatting
+		m := Misfits[r.Intn(len(Misfits))]
+		for i := range c.Patches {
+			if c.Patches[i].Via != "p" {
+				c.Patches[i].Via = "p"
+				if c.Patches[i].Path == "stdin" {
+					c.Patches[i].Path = PatDir + "/p0.patch"
+					c.SetNode(world.NodeSpec{Path: c.Patches[i].Path, Kind: "file", Data: c.Patches[i].Data})
+				}
+			}
+		}
+		c.AddPatch("misfit.patch", "p", []byte(m.Patch(48)), nil, nil)
+		c.AddFile(r.Pick([]string{"a_mis.go", "mm_mis.go", "pkg/a_mis.go"}), GenValidGoFile(r, GoFileOpts{Funcs: 1, Stmts: []string{m.Stmt(48)}}), "misfit", nil, m.Name)
+	}
 	all := pp.All()
 	n := r.Range(2, 6)
 	for j := 0; j < n; j++ {
